@@ -29,6 +29,10 @@ def check_and_persist_dask_input(data, persist=True):
 def array_to_delayed_list(data, input_is_dask):
     # If input is a dask array, convert to delayed chunks
     if input_is_dask:
+        # Each delayed block must be a block of complete rows: when the feature
+        # axis is chunked too, merge its chunks first
+        if data.ndim > 1 and data.numblocks[1] > 1:
+            data = data.rechunk({1: -1})
         data = data.to_delayed().ravel().tolist()
         logger.debug(f"Got {len(data)} chunks.")
     return data
